@@ -7,7 +7,7 @@ from . import common
 
 NAME = "U-opt"
 TOOL = "verus"
-PROPS = ["C02", "C18", "C14", "C16", "C17"]
+PROPS = ["C02", "C18", "C14", "C16", "C17", "C15"]
 RLIMIT = 200
 TRUSTED = ["verus 0.2026.09.13 + z3", "A-isa: register / memory / flag write sets of the 45 mnemonics (MOS datasheet), written as spec functions in this unit",
            "A-vstd (String ==, clone, Option)"]
